@@ -34,6 +34,10 @@ class FireflySwarmOptimization(OptimizationAbstract):
     def set_config_parameters(self, parameters: dict[str, Any]):
         self._config = FireflySwarmOptimizationConfig(**parameters)
 
+    def before_initialization(self):
+        # the randomness parameter decays during a run: work on a copy, the caller's configuration is left untouched
+        self.__dyn_alpha = self._config.alpha
+
     def optimization_step(self):
         def update_firefly(idx: int, firefly: Firefly) -> Firefly:
             """
@@ -63,9 +67,9 @@ class FireflySwarmOptimization(OptimizationAbstract):
 
         # update alpha parameter. This parameter is used to control the randomness of the movement of the fireflies
         delta = 1.0 - (10.0 ** -4.0 / 0.9) ** (1.0 / self._current_cycle)
-        self._config.alpha *= (1 - delta) * self._config.alpha
+        self.__dyn_alpha *= (1 - delta) * self.__dyn_alpha
 
-        alpha = self._config.alpha
+        alpha = self.__dyn_alpha
         beta_min = self._config.beta_min
         gamma = self._config.gamma
 
